@@ -187,6 +187,15 @@ impl<T: Config> SpectatorSession<T> {
         self.num_players
     }
 
+    /// Verification hook: sizes of all internal buffers.
+    #[cfg(feature = "verif-hooks")]
+    pub fn verif_sizes(&self) -> crate::verif::SpectatorSizes {
+        crate::verif::SpectatorSizes {
+            event_queue: self.event_queue.len(),
+            host: self.host.verif_info(),
+        }
+    }
+
     fn inputs_at_frame(
         &self,
         frame_to_grab: Frame,
